@@ -300,7 +300,7 @@ def run_c20(case):
                 await asyncio.sleep(spec['start'])
                 CUR[asyncio.current_task()] = c
                 owner = owners[spec['owner']]
-                key = hlp._get_semaphore_key('work', case['name'], case['scope'], (owner, c, spec))
+                key = _semkey(hlp, getattr(work, '__wrapped__', work), case['name'], case['scope'], (owner, c, spec))
                 KEY[c] = key
                 log.append(('call', key, c, int(case['lax']), asyncio.get_event_loop().time()))
                 res = 'ok'
@@ -427,16 +427,29 @@ def semkey_cases(rng, n):
     return out
 
 
+def _semkey(hlp, func, name, scope, args):
+    """`_get_semaphore_key` for the decorated function `func` (the library takes the function's name; should it take the
+    function itself, hand that over)"""
+    try:
+        return hlp._get_semaphore_key(func.__name__, name, scope, args)
+    except (AttributeError, TypeError):
+        return hlp._get_semaphore_key(func, name, scope, args)
+
+
 def check_semkeys(cases):
     """pure differential of `_get_semaphore_key` against the model's `semKey`: equal keys iff equal model keys"""
     hlp = _setup()
-    classes = [type(f'K{i}', (), {}) for i in range(3)]
+
+    class KBase:
+        def f(self):            # the decorated method is written once, in a base class, and inherited
+            return None
+    classes = [type(f'K{i}', (KBase,), {}) for i in range(3)]
     insts = [[cls() for _ in range(4)] for cls in classes]
     lines = []
     real = []
     for i, c in enumerate(cases):
         args = (insts[c['cls']][c['inst']],) if c['hasArgs'] else ()
-        real.append(hlp._get_semaphore_key('f', f"n{c['name']}", c['scope'], args))
+        real.append(_semkey(hlp, KBase.f, f"n{c['name']}", c['scope'], args))
         lines.append(f"T semkey {i} {c['scope']} {c['name']} {int(c['hasArgs'])} {c['cls']} {c['cls'] * 10 + c['inst']}")
     out = [l for l in evid.drive(lines) if l.startswith('TK ')]
     model = [l.split()[2] for l in out]
